@@ -45,6 +45,11 @@ class ProgError(Exception):
     def __hash__(self):
         return hash(self.args)
 
+    def __len__(self):
+        # a "collected errors" kind of exception: an instance whose tag starts with 'falsy' is falsy (an exception object must be
+        # recognised by what it is, not by its truth value)
+        return 0 if str(self.tag).startswith('falsy') else 1
+
 
 class Recorder:
     """Single logical clock for everything observed in one execution."""
